@@ -14,8 +14,10 @@ type timeT = time.Time
 type Mode uint8
 
 const (
-	Binary Mode = iota // floats by bits
-	JSON               // as Binary, but any NaN equals any NaN (the JSON form has a single "NaN")
+	Binary Mode = 0 // floats by bits
+	JSON   Mode = 1 // as Binary, but any NaN equals any NaN (the JSON form has a single "NaN")
+
+	zeroSignInsensitive Mode = 2 // internal: below an omitempty field in JSON mode
 )
 
 // Equal decides "an equal value up to the canonical ordering": nil and empty
@@ -43,7 +45,10 @@ func eq(s *Shape, a, b *Val, m Mode, path string) string {
 	case Float32:
 		if a.U != b.U {
 			fa, fb := math.Float32frombits(uint32(a.U)), math.Float32frombits(uint32(b.U))
-			if m == JSON && fa != fa && fb != fb {
+			if m&JSON != 0 && fa != fa && fb != fb {
+				return ""
+			}
+			if m&zeroSignInsensitive != 0 && fa == 0 && fb == 0 {
 				return ""
 			}
 			return fmt.Sprintf("%s: f32 bits %#x vs %#x", path, a.U, b.U)
@@ -51,7 +56,10 @@ func eq(s *Shape, a, b *Val, m Mode, path string) string {
 	case Float64:
 		if a.U != b.U {
 			fa, fb := math.Float64frombits(a.U), math.Float64frombits(b.U)
-			if m == JSON && fa != fa && fb != fb {
+			if m&JSON != 0 && fa != fa && fb != fb {
+				return ""
+			}
+			if m&zeroSignInsensitive != 0 && fa == 0 && fb == 0 {
 				return ""
 			}
 			return fmt.Sprintf("%s: f64 bits %#x vs %#x", path, a.U, b.U)
@@ -88,13 +96,13 @@ func eq(s *Shape, a, b *Val, m Mode, path string) string {
 		}
 	case Struct:
 		for i, f := range s.Fields {
-			if m == JSON && f.OmitEmpty && (f.S.Kind == Float32 || f.S.Kind == Float64) && a.L[i].U<<1 == 0 && b.L[i].U<<1 == 0 {
-				// omitempty drops −0.0 like +0.0 (reflect.Value.IsZero); the two are == in Go
-				if f.S.Kind == Float64 || uint32(a.L[i].U)<<1 == 0 && uint32(b.L[i].U)<<1 == 0 {
-					continue
-				}
+			fm := m
+			if m&JSON != 0 && f.OmitEmpty {
+				// omitempty drops a value whose reflect.Value.IsZero is true; that includes −0.0
+				// (−0.0 == 0 in Go), so below such a field the two zeros are not distinguished
+				fm |= zeroSignInsensitive
 			}
-			if p := eq(f.S, a.L[i], b.L[i], m, path+"."+f.Name); p != "" {
+			if p := eq(f.S, a.L[i], b.L[i], fm, path+"."+f.Name); p != "" {
 				return p
 			}
 		}
